@@ -51,16 +51,18 @@ def main():
     if not os.path.exists(WT):
         subprocess.check_call(["git", "-C", REPO, "worktree", "add", "-q", "--detach", WT, "HEAD"])
     sh(["git", "-C", WT, "checkout", "-q", "--", "."])
+    head = subprocess.check_output(["git", "-C", REPO, "rev-parse", "HEAD"], text=True).strip()
+    sh(["git", "-C", WT, "checkout", "-q", "--detach", head])      # the committed state of /repo, never its working tree
     subprocess.check_call(["rsync", "-a", "--delete", "--exclude", ".git", "--exclude", "replays", "--exclude", "mutation",
                            VERIF + "/", SV + "/"])
     os.makedirs(os.path.join(SV, "replays"), exist_ok=True)
     mut = os.path.join(MM, "mutator")
     subprocess.check_call(["go", "build", "-o", mut, "."], cwd=os.path.join(VERIF, "tools", "mutator"), env=ENV)
-    files = subprocess.check_output(["git", "-C", REPO, "ls-files", "*.go"], text=True).split()
+    files = subprocess.check_output(["git", "-C", WT, "ls-files", "*.go"], text=True).split()
     files = [f for f in files if not f.endswith("_test.go") and "export_verif" not in f and "cpimport" not in f and not f.endswith("doc.go")]
     points = []
     for f in files:
-        rc, out = sh([mut, "-list", os.path.join(REPO, f)])
+        rc, out = sh([mut, "-list", os.path.join(WT, f)])
         for line in out.splitlines():
             k, _, desc = line.partition("\t")
             points.append((f, int(k), desc))
@@ -83,7 +85,8 @@ def main():
         taken += 1
         rec = {"file": f, "k": k, "desc": desc, "seed": seed}
         t0 = time.time()
-        rc, src = sh([mut, "-apply", str(k), os.path.join(REPO, f)])
+        sh(["git", "-C", WT, "checkout", "-q", "--", "."])
+        rc, src = sh([mut, "-apply", str(k), os.path.join(WT, f)])
         open(os.path.join(WT, f), "w").write(src)
         try:
             rc, out = sh(["go", "build", "./..."], cwd=WT, timeout=300)
